@@ -3,10 +3,11 @@ from engine.driver import run_property, Task, LemmaTask
 from props.common import filter_tasks, TRUSTED, BASE_ASSUME, scan_lemma
 from props.mem_common import keep_labels
 import props.audio_common as ac
+import props.wiring as wr
 
 MANIFEST = {
     "level": "proof",
-    "text": "Pacing: tickClock (one call per clock cycle, four per machine cycle) is proved to advance the clock counter by exactly one and to send exactly one left and one right sample iff sound is on, both outputs are attached and the counter is a multiple of 95 - for every counter value below 2^62, so also across emulated-second boundaries; a ranking-function lemma over that contract gives exactly one stereo sample per 95 clock cycles; nothing is sent when sound is off or an output is missing. Bounded: in the SMT floating-point theory (float32, round-to-nearest-even, Go's evaluation order) both samples produced by the real takeSample code are proved finite and in [0,1) under the representation invariant apuOK (volume <= 15, duty index < 8, sample buffer <= 15, master volume <= 7, ...), which tickClock and tickFrameSequencer are proved to preserve. Routed: the sample of a side is proved to be +0 when no enabled channel is routed to it, and to be identical (relational obligation over two states that differ in every field of one channel) whenever that channel's NR51 bit for the side is clear.",
+    "text": "Pacing: tickClock (one call per clock cycle, four per machine cycle) is proved to advance the clock counter by exactly one and to send exactly one left and one right sample iff sound is on, both outputs are attached and the counter is a multiple of 95 - for every counter value below 2^62, so also across emulated-second boundaries; a ranking-function lemma over that contract gives exactly one stereo sample per 95 clock cycles; nothing is sent when sound is off or an output is missing. Bounded: in the SMT floating-point theory (float32, round-to-nearest-even, Go's evaluation order) both samples produced by the real takeSample code are proved finite and in [0,1) under the representation invariant apuOK (volume <= 15, duty index < 8, sample buffer <= 15, master volume <= 7, ...), which tickClock and tickFrameSequencer are proved to preserve. Routed: the sample of a side is proved to be +0 when no enabled channel is routed to it, and to be identical (relational obligation over two states that differ in every field of one channel) whenever that channel's NR51 bit for the side is clear. apuOK and the clock invariant are proved established by gameboy.New/audio.New (power-on lemma on the real constructor) and preserved by every exported method of *Audio (register handlers and EndMachineCycle), for every argument.",
     "note": "Assumed: a channel send is recorded as a ghost event (the speakers goroutine is the environment; blocking is not modelled); amd64 float32 arithmetic without fused multiply-add. The wiring 'DisableAudioOutput => audio.New(nil, nil)' in gameboy.New is checked by an SSA scan. apuOK is established by audio.New (checked) and preserved by the register handlers (their masks).",
     "technique": "function contracts with a ghost sample trace, floating-point SMT obligations, relational (two-state) routing lemma, ranking-function lemma; z3",
     "design_ref": "DESIGN.md section 4 C20",
@@ -25,6 +26,10 @@ def tasks(ctx):
           Task(ac.A + "takeSample[no-outputs]", ac.A + "takeSample", variant="no-outputs", overrides=ac.OV, keep=KEEP),
           LemmaTask("lemma:mix", ac.mix_lemmas, [ac.A + "takeSample", "(*audio.square).takeSample", "(*audio.wave).takeSample", "(*audio.noise).takeSample"]),
           LemmaTask("lemma:pacing", ac.pacing_lemma, ["tickClock (contract-level lemma)"])]
+    # the invariant the bound rests on: established at power-on, preserved by every entry point of the APU
+    ts.extend(ac.invariant_task(fn) for fn in ac.exported_audio_methods(ctx))
+    ts.append(LemmaTask("lemma:power-on", lambda c, e, ce: wr.power_on(c, e, ce, wiring=False, only=("apuOK(m.audio)", "m.audio.ticks >= 1 && m.audio.frameSeqTicks < 512")),
+                        ["gameboy.New", "audio.New"]))
     return filter_tasks(ts)
 
 
